@@ -227,7 +227,7 @@ def fold_semantics(f):
                 if e[0] == "set" and e[1] in acc_locals and (e[3] == payload or (e[3][0] == "local" and e[3][1] in holders)):
                     eff = "assign"
                 # the accumulator may also be a field of a local state structure
-                if e[0] == "write" and e[1] in acc_places and (e[2] == payload or (e[2][0] == "local" and e[2][1] in holders)):
+                if e[0] in ("write", "lwrite") and e[1] in acc_places and (e[2] == payload or (e[2][0] == "local" and e[2][1] in holders)):
                     eff = "assign"
             returns = p.end[0] == "ret" or (p.end[0] == "stop" and p.end[1] in lp.tail_blocks() and p.end[1] != lp.exit and lp.exit not in p.blocks)
             rows[(produced, reset, stop)] = (eff, returns)
